@@ -24,6 +24,12 @@ Simple == { C(op, <<t, g, i>>) : op \in {"findall", "bagof", "setof"}, t \in Tem
 Nested == { C("findall", <<C("-", <<C("w", <<X, Y, Z>>), L>>), C(op, <<t, g, L>>), V(9)>>) : op \in {"bagof", "setof"}, t \in {Z, C("-", <<Z, X>>)}, g \in Goals }
           \cup { C(op, <<L, C(",", <<C("member", <<X, MkList(<<A("a"), A("b")>>)>>), C("findall", <<t, R(X, Y, Z), L>>)>>), V(9)>>) : op \in {"bagof", "setof"}, t \in {Y, Z} }
 
+\* the goal (or the part under a ^) reaches bagof/setof through a variable bound at call time
+Indirect == { C(",", <<C("=", <<V(9), inner>>), C(op, <<t, outer, L>>)>>) :
+                op \in {"bagof", "setof"}, t \in {X, C("-", <<Z, X>>)},
+                inner \in { C("^", <<Z, R(X, Y, Z)>>), R(X, Y, Z), C("^", <<Y, C("^", <<Z, R(X, Y, Z)>>)>>) },
+                outer \in { C("^", <<Y, V(9)>>), V(9), C("^", <<X, C("^", <<Y, V(9)>>)>>) } }
+
 MkCl(i, h) == LET vs == TermVars(h) IN [id |-> i, head |-> Renum(h, vs, 0), body |-> TrueA, nv |-> Len(vs)]
 Db(rows) == << [key |-> <<"r", 3>>, dyn |-> FALSE, cls |-> [i \in 1..Len(rows) |-> MkCl(i, rows[i])]],
                [key |-> <<"member", 2>>, dyn |-> FALSE,
@@ -35,7 +41,7 @@ CONSTANTS NR,       \* number of rows of the table
 VARIABLES st, hist, q, rows
 gvars == <<st, hist, q, rows>>
 GInit == /\ rows \in [1..NR -> Rows]
-         /\ q \in Simple \cup (IF NEST THEN Nested ELSE {})
+         /\ q \in Simple \cup (IF NEST THEN Nested \cup Indirect ELSE {})
          /\ st = InitState(Db(rows), q, 9)
          /\ hist = <<>>
 GNext == /\ ~Terminal(st)
